@@ -24,7 +24,7 @@ use crate::revision::Revision;
 use crate::revisiontree::RevisionTree;
 use crate::utils::{
     apply_diff_patch, digest_bytes, digest_object, digest_string, flatten, is_array_descriptor,
-    make_diff_patch, merge_arrays, unflatten,
+    make_diff_patch, merge_arrays, parse_stored_json, unflatten,
 };
 use anyhow::{anyhow, bail, Result};
 use lazy_static::lazy_static;
@@ -2409,7 +2409,7 @@ impl Melda {
             bail!("mismatching_delta_hash");
         }
         let json = std::str::from_utf8(&data)?;
-        let json: Value = serde_json::from_str(json)?;
+        let json: Value = parse_stored_json(json)?;
         if !json.is_object() {
             bail!("invalid_delta_format");
         }
